@@ -468,3 +468,10 @@ def lemmas():
         ("written-then-rebased-parent-is-the-original-parent-and-roots-stay-roots", wf, pid_back == p),
         ("a-written-non-root-parent-is-never-the-root-marker", wf + [p >= 0], pid_written != -1),
     ]
+
+
+def regex_facts():
+    """regex-language facts of this property (contracts/regex_facts.py): obligations C01/regex/<label>"""
+    from contracts import regex_facts as RF
+
+    return RF.facts("C01")
